@@ -19,7 +19,7 @@ struct HelloCase {
     desc: String,
 }
 
-fn cases() -> Vec<HelloCase> {
+fn cases(max_irregular: usize) -> Vec<HelloCase> {
     let base_sets: [(&[&str], Option<&'static str>, &str); 4] = [
         (&[], None, "neither base"),
         (&[CAP_BASE_1_0], Some("V1_0"), "base:1.0 only"),
@@ -58,7 +58,7 @@ fn cases() -> Vec<HelloCase> {
                             for truncated in [false, true] {
                                 // keep the matrix focused: irregular shapes are combined with otherwise good hellos
                                 let irregular = usize::from(ns != Ns::Default) + usize::from(dup_caps) + usize::from(truncated) + usize::from(valid_id.is_none()) + usize::from(version.is_none());
-                                if irregular > 1 && !(irregular == 2 && ns == Ns::Prefixed) {
+                                if irregular > max_irregular && !(irregular == max_irregular + 1 && ns == Ns::Prefixed) {
                                     continue;
                                 }
                                 let p = if ns == Ns::Prefixed { "nc:" } else { "" };
@@ -100,7 +100,7 @@ fn cases() -> Vec<HelloCase> {
 }
 
 pub fn run(report: &mut Report) {
-    let cases = cases();
+    let cases = cases(if report.tier.thorough() { 3 } else { 1 });
     let mut evaluations = 0u64;
     let mut established = 0u64;
     let mut distinct = BTreeSet::new();
